@@ -128,7 +128,8 @@ Record cstate := {
   s_pol_stop_msgs : N;
   s_now : N;
   s_mets : metrics;
-  s_hist_min : Z;                 (* life-expectancy histogram: min field (the rest stays 0) *)
+  s_hist : hist;                  (* life-expectancy histogram *)
+  s_start : amap N;               (* CacheProcessor.start_ts: admission time of tracked keys *)
   s_closed : bool;
   s_pol_closed : bool;
   s_pc : ppc;
@@ -137,26 +138,27 @@ Record cstate := {
 }.
 
 (* ---- small helpers ---- *)
-Definition upd_store st x := {| s_store := x; s_slfu := s_slfu st; s_tlfu := s_tlfu st; s_ring := s_ring st; s_pqueue := s_pqueue st; s_buf := s_buf st; s_clear_sigs := s_clear_sigs st; s_done := s_done st; s_next_id := s_next_id st; s_ticks := s_ticks st; s_stop_msgs := s_stop_msgs st; s_pol_stop_msgs := s_pol_stop_msgs st; s_now := s_now st; s_mets := s_mets st; s_hist_min := s_hist_min st; s_closed := s_closed st; s_pol_closed := s_pol_closed st; s_pc := s_pc st; s_wpc := s_wpc st; s_clients := s_clients st |}.
-Definition upd_slfu st x := {| s_store := s_store st; s_slfu := x; s_tlfu := s_tlfu st; s_ring := s_ring st; s_pqueue := s_pqueue st; s_buf := s_buf st; s_clear_sigs := s_clear_sigs st; s_done := s_done st; s_next_id := s_next_id st; s_ticks := s_ticks st; s_stop_msgs := s_stop_msgs st; s_pol_stop_msgs := s_pol_stop_msgs st; s_now := s_now st; s_mets := s_mets st; s_hist_min := s_hist_min st; s_closed := s_closed st; s_pol_closed := s_pol_closed st; s_pc := s_pc st; s_wpc := s_wpc st; s_clients := s_clients st |}.
-Definition upd_tlfu st x := {| s_store := s_store st; s_slfu := s_slfu st; s_tlfu := x; s_ring := s_ring st; s_pqueue := s_pqueue st; s_buf := s_buf st; s_clear_sigs := s_clear_sigs st; s_done := s_done st; s_next_id := s_next_id st; s_ticks := s_ticks st; s_stop_msgs := s_stop_msgs st; s_pol_stop_msgs := s_pol_stop_msgs st; s_now := s_now st; s_mets := s_mets st; s_hist_min := s_hist_min st; s_closed := s_closed st; s_pol_closed := s_pol_closed st; s_pc := s_pc st; s_wpc := s_wpc st; s_clients := s_clients st |}.
-Definition upd_ring st x := {| s_store := s_store st; s_slfu := s_slfu st; s_tlfu := s_tlfu st; s_ring := x; s_pqueue := s_pqueue st; s_buf := s_buf st; s_clear_sigs := s_clear_sigs st; s_done := s_done st; s_next_id := s_next_id st; s_ticks := s_ticks st; s_stop_msgs := s_stop_msgs st; s_pol_stop_msgs := s_pol_stop_msgs st; s_now := s_now st; s_mets := s_mets st; s_hist_min := s_hist_min st; s_closed := s_closed st; s_pol_closed := s_pol_closed st; s_pc := s_pc st; s_wpc := s_wpc st; s_clients := s_clients st |}.
-Definition upd_pqueue st x := {| s_store := s_store st; s_slfu := s_slfu st; s_tlfu := s_tlfu st; s_ring := s_ring st; s_pqueue := x; s_buf := s_buf st; s_clear_sigs := s_clear_sigs st; s_done := s_done st; s_next_id := s_next_id st; s_ticks := s_ticks st; s_stop_msgs := s_stop_msgs st; s_pol_stop_msgs := s_pol_stop_msgs st; s_now := s_now st; s_mets := s_mets st; s_hist_min := s_hist_min st; s_closed := s_closed st; s_pol_closed := s_pol_closed st; s_pc := s_pc st; s_wpc := s_wpc st; s_clients := s_clients st |}.
-Definition upd_buf st x := {| s_store := s_store st; s_slfu := s_slfu st; s_tlfu := s_tlfu st; s_ring := s_ring st; s_pqueue := s_pqueue st; s_buf := x; s_clear_sigs := s_clear_sigs st; s_done := s_done st; s_next_id := s_next_id st; s_ticks := s_ticks st; s_stop_msgs := s_stop_msgs st; s_pol_stop_msgs := s_pol_stop_msgs st; s_now := s_now st; s_mets := s_mets st; s_hist_min := s_hist_min st; s_closed := s_closed st; s_pol_closed := s_pol_closed st; s_pc := s_pc st; s_wpc := s_wpc st; s_clients := s_clients st |}.
-Definition upd_clear_sigs st x := {| s_store := s_store st; s_slfu := s_slfu st; s_tlfu := s_tlfu st; s_ring := s_ring st; s_pqueue := s_pqueue st; s_buf := s_buf st; s_clear_sigs := x; s_done := s_done st; s_next_id := s_next_id st; s_ticks := s_ticks st; s_stop_msgs := s_stop_msgs st; s_pol_stop_msgs := s_pol_stop_msgs st; s_now := s_now st; s_mets := s_mets st; s_hist_min := s_hist_min st; s_closed := s_closed st; s_pol_closed := s_pol_closed st; s_pc := s_pc st; s_wpc := s_wpc st; s_clients := s_clients st |}.
-Definition upd_done st x := {| s_store := s_store st; s_slfu := s_slfu st; s_tlfu := s_tlfu st; s_ring := s_ring st; s_pqueue := s_pqueue st; s_buf := s_buf st; s_clear_sigs := s_clear_sigs st; s_done := x; s_next_id := s_next_id st; s_ticks := s_ticks st; s_stop_msgs := s_stop_msgs st; s_pol_stop_msgs := s_pol_stop_msgs st; s_now := s_now st; s_mets := s_mets st; s_hist_min := s_hist_min st; s_closed := s_closed st; s_pol_closed := s_pol_closed st; s_pc := s_pc st; s_wpc := s_wpc st; s_clients := s_clients st |}.
-Definition upd_next_id st x := {| s_store := s_store st; s_slfu := s_slfu st; s_tlfu := s_tlfu st; s_ring := s_ring st; s_pqueue := s_pqueue st; s_buf := s_buf st; s_clear_sigs := s_clear_sigs st; s_done := s_done st; s_next_id := x; s_ticks := s_ticks st; s_stop_msgs := s_stop_msgs st; s_pol_stop_msgs := s_pol_stop_msgs st; s_now := s_now st; s_mets := s_mets st; s_hist_min := s_hist_min st; s_closed := s_closed st; s_pol_closed := s_pol_closed st; s_pc := s_pc st; s_wpc := s_wpc st; s_clients := s_clients st |}.
-Definition upd_ticks st x := {| s_store := s_store st; s_slfu := s_slfu st; s_tlfu := s_tlfu st; s_ring := s_ring st; s_pqueue := s_pqueue st; s_buf := s_buf st; s_clear_sigs := s_clear_sigs st; s_done := s_done st; s_next_id := s_next_id st; s_ticks := x; s_stop_msgs := s_stop_msgs st; s_pol_stop_msgs := s_pol_stop_msgs st; s_now := s_now st; s_mets := s_mets st; s_hist_min := s_hist_min st; s_closed := s_closed st; s_pol_closed := s_pol_closed st; s_pc := s_pc st; s_wpc := s_wpc st; s_clients := s_clients st |}.
-Definition upd_stop_msgs st x := {| s_store := s_store st; s_slfu := s_slfu st; s_tlfu := s_tlfu st; s_ring := s_ring st; s_pqueue := s_pqueue st; s_buf := s_buf st; s_clear_sigs := s_clear_sigs st; s_done := s_done st; s_next_id := s_next_id st; s_ticks := s_ticks st; s_stop_msgs := x; s_pol_stop_msgs := s_pol_stop_msgs st; s_now := s_now st; s_mets := s_mets st; s_hist_min := s_hist_min st; s_closed := s_closed st; s_pol_closed := s_pol_closed st; s_pc := s_pc st; s_wpc := s_wpc st; s_clients := s_clients st |}.
-Definition upd_pol_stop_msgs st x := {| s_store := s_store st; s_slfu := s_slfu st; s_tlfu := s_tlfu st; s_ring := s_ring st; s_pqueue := s_pqueue st; s_buf := s_buf st; s_clear_sigs := s_clear_sigs st; s_done := s_done st; s_next_id := s_next_id st; s_ticks := s_ticks st; s_stop_msgs := s_stop_msgs st; s_pol_stop_msgs := x; s_now := s_now st; s_mets := s_mets st; s_hist_min := s_hist_min st; s_closed := s_closed st; s_pol_closed := s_pol_closed st; s_pc := s_pc st; s_wpc := s_wpc st; s_clients := s_clients st |}.
-Definition upd_now st x := {| s_store := s_store st; s_slfu := s_slfu st; s_tlfu := s_tlfu st; s_ring := s_ring st; s_pqueue := s_pqueue st; s_buf := s_buf st; s_clear_sigs := s_clear_sigs st; s_done := s_done st; s_next_id := s_next_id st; s_ticks := s_ticks st; s_stop_msgs := s_stop_msgs st; s_pol_stop_msgs := s_pol_stop_msgs st; s_now := x; s_mets := s_mets st; s_hist_min := s_hist_min st; s_closed := s_closed st; s_pol_closed := s_pol_closed st; s_pc := s_pc st; s_wpc := s_wpc st; s_clients := s_clients st |}.
-Definition upd_mets st x := {| s_store := s_store st; s_slfu := s_slfu st; s_tlfu := s_tlfu st; s_ring := s_ring st; s_pqueue := s_pqueue st; s_buf := s_buf st; s_clear_sigs := s_clear_sigs st; s_done := s_done st; s_next_id := s_next_id st; s_ticks := s_ticks st; s_stop_msgs := s_stop_msgs st; s_pol_stop_msgs := s_pol_stop_msgs st; s_now := s_now st; s_mets := x; s_hist_min := s_hist_min st; s_closed := s_closed st; s_pol_closed := s_pol_closed st; s_pc := s_pc st; s_wpc := s_wpc st; s_clients := s_clients st |}.
-Definition upd_hist_min st x := {| s_store := s_store st; s_slfu := s_slfu st; s_tlfu := s_tlfu st; s_ring := s_ring st; s_pqueue := s_pqueue st; s_buf := s_buf st; s_clear_sigs := s_clear_sigs st; s_done := s_done st; s_next_id := s_next_id st; s_ticks := s_ticks st; s_stop_msgs := s_stop_msgs st; s_pol_stop_msgs := s_pol_stop_msgs st; s_now := s_now st; s_mets := s_mets st; s_hist_min := x; s_closed := s_closed st; s_pol_closed := s_pol_closed st; s_pc := s_pc st; s_wpc := s_wpc st; s_clients := s_clients st |}.
-Definition upd_closed st x := {| s_store := s_store st; s_slfu := s_slfu st; s_tlfu := s_tlfu st; s_ring := s_ring st; s_pqueue := s_pqueue st; s_buf := s_buf st; s_clear_sigs := s_clear_sigs st; s_done := s_done st; s_next_id := s_next_id st; s_ticks := s_ticks st; s_stop_msgs := s_stop_msgs st; s_pol_stop_msgs := s_pol_stop_msgs st; s_now := s_now st; s_mets := s_mets st; s_hist_min := s_hist_min st; s_closed := x; s_pol_closed := s_pol_closed st; s_pc := s_pc st; s_wpc := s_wpc st; s_clients := s_clients st |}.
-Definition upd_pol_closed st x := {| s_store := s_store st; s_slfu := s_slfu st; s_tlfu := s_tlfu st; s_ring := s_ring st; s_pqueue := s_pqueue st; s_buf := s_buf st; s_clear_sigs := s_clear_sigs st; s_done := s_done st; s_next_id := s_next_id st; s_ticks := s_ticks st; s_stop_msgs := s_stop_msgs st; s_pol_stop_msgs := s_pol_stop_msgs st; s_now := s_now st; s_mets := s_mets st; s_hist_min := s_hist_min st; s_closed := s_closed st; s_pol_closed := x; s_pc := s_pc st; s_wpc := s_wpc st; s_clients := s_clients st |}.
-Definition upd_pc st x := {| s_store := s_store st; s_slfu := s_slfu st; s_tlfu := s_tlfu st; s_ring := s_ring st; s_pqueue := s_pqueue st; s_buf := s_buf st; s_clear_sigs := s_clear_sigs st; s_done := s_done st; s_next_id := s_next_id st; s_ticks := s_ticks st; s_stop_msgs := s_stop_msgs st; s_pol_stop_msgs := s_pol_stop_msgs st; s_now := s_now st; s_mets := s_mets st; s_hist_min := s_hist_min st; s_closed := s_closed st; s_pol_closed := s_pol_closed st; s_pc := x; s_wpc := s_wpc st; s_clients := s_clients st |}.
-Definition upd_wpc st x := {| s_store := s_store st; s_slfu := s_slfu st; s_tlfu := s_tlfu st; s_ring := s_ring st; s_pqueue := s_pqueue st; s_buf := s_buf st; s_clear_sigs := s_clear_sigs st; s_done := s_done st; s_next_id := s_next_id st; s_ticks := s_ticks st; s_stop_msgs := s_stop_msgs st; s_pol_stop_msgs := s_pol_stop_msgs st; s_now := s_now st; s_mets := s_mets st; s_hist_min := s_hist_min st; s_closed := s_closed st; s_pol_closed := s_pol_closed st; s_pc := s_pc st; s_wpc := x; s_clients := s_clients st |}.
-Definition upd_clients st x := {| s_store := s_store st; s_slfu := s_slfu st; s_tlfu := s_tlfu st; s_ring := s_ring st; s_pqueue := s_pqueue st; s_buf := s_buf st; s_clear_sigs := s_clear_sigs st; s_done := s_done st; s_next_id := s_next_id st; s_ticks := s_ticks st; s_stop_msgs := s_stop_msgs st; s_pol_stop_msgs := s_pol_stop_msgs st; s_now := s_now st; s_mets := s_mets st; s_hist_min := s_hist_min st; s_closed := s_closed st; s_pol_closed := s_pol_closed st; s_pc := s_pc st; s_wpc := s_wpc st; s_clients := x |}.
+Definition upd_store st x := {| s_store := x; s_slfu := s_slfu st; s_tlfu := s_tlfu st; s_ring := s_ring st; s_pqueue := s_pqueue st; s_buf := s_buf st; s_clear_sigs := s_clear_sigs st; s_done := s_done st; s_next_id := s_next_id st; s_ticks := s_ticks st; s_stop_msgs := s_stop_msgs st; s_pol_stop_msgs := s_pol_stop_msgs st; s_now := s_now st; s_mets := s_mets st; s_hist := s_hist st; s_start := s_start st; s_closed := s_closed st; s_pol_closed := s_pol_closed st; s_pc := s_pc st; s_wpc := s_wpc st; s_clients := s_clients st |}.
+Definition upd_slfu st x := {| s_store := s_store st; s_slfu := x; s_tlfu := s_tlfu st; s_ring := s_ring st; s_pqueue := s_pqueue st; s_buf := s_buf st; s_clear_sigs := s_clear_sigs st; s_done := s_done st; s_next_id := s_next_id st; s_ticks := s_ticks st; s_stop_msgs := s_stop_msgs st; s_pol_stop_msgs := s_pol_stop_msgs st; s_now := s_now st; s_mets := s_mets st; s_hist := s_hist st; s_start := s_start st; s_closed := s_closed st; s_pol_closed := s_pol_closed st; s_pc := s_pc st; s_wpc := s_wpc st; s_clients := s_clients st |}.
+Definition upd_tlfu st x := {| s_store := s_store st; s_slfu := s_slfu st; s_tlfu := x; s_ring := s_ring st; s_pqueue := s_pqueue st; s_buf := s_buf st; s_clear_sigs := s_clear_sigs st; s_done := s_done st; s_next_id := s_next_id st; s_ticks := s_ticks st; s_stop_msgs := s_stop_msgs st; s_pol_stop_msgs := s_pol_stop_msgs st; s_now := s_now st; s_mets := s_mets st; s_hist := s_hist st; s_start := s_start st; s_closed := s_closed st; s_pol_closed := s_pol_closed st; s_pc := s_pc st; s_wpc := s_wpc st; s_clients := s_clients st |}.
+Definition upd_ring st x := {| s_store := s_store st; s_slfu := s_slfu st; s_tlfu := s_tlfu st; s_ring := x; s_pqueue := s_pqueue st; s_buf := s_buf st; s_clear_sigs := s_clear_sigs st; s_done := s_done st; s_next_id := s_next_id st; s_ticks := s_ticks st; s_stop_msgs := s_stop_msgs st; s_pol_stop_msgs := s_pol_stop_msgs st; s_now := s_now st; s_mets := s_mets st; s_hist := s_hist st; s_start := s_start st; s_closed := s_closed st; s_pol_closed := s_pol_closed st; s_pc := s_pc st; s_wpc := s_wpc st; s_clients := s_clients st |}.
+Definition upd_pqueue st x := {| s_store := s_store st; s_slfu := s_slfu st; s_tlfu := s_tlfu st; s_ring := s_ring st; s_pqueue := x; s_buf := s_buf st; s_clear_sigs := s_clear_sigs st; s_done := s_done st; s_next_id := s_next_id st; s_ticks := s_ticks st; s_stop_msgs := s_stop_msgs st; s_pol_stop_msgs := s_pol_stop_msgs st; s_now := s_now st; s_mets := s_mets st; s_hist := s_hist st; s_start := s_start st; s_closed := s_closed st; s_pol_closed := s_pol_closed st; s_pc := s_pc st; s_wpc := s_wpc st; s_clients := s_clients st |}.
+Definition upd_buf st x := {| s_store := s_store st; s_slfu := s_slfu st; s_tlfu := s_tlfu st; s_ring := s_ring st; s_pqueue := s_pqueue st; s_buf := x; s_clear_sigs := s_clear_sigs st; s_done := s_done st; s_next_id := s_next_id st; s_ticks := s_ticks st; s_stop_msgs := s_stop_msgs st; s_pol_stop_msgs := s_pol_stop_msgs st; s_now := s_now st; s_mets := s_mets st; s_hist := s_hist st; s_start := s_start st; s_closed := s_closed st; s_pol_closed := s_pol_closed st; s_pc := s_pc st; s_wpc := s_wpc st; s_clients := s_clients st |}.
+Definition upd_clear_sigs st x := {| s_store := s_store st; s_slfu := s_slfu st; s_tlfu := s_tlfu st; s_ring := s_ring st; s_pqueue := s_pqueue st; s_buf := s_buf st; s_clear_sigs := x; s_done := s_done st; s_next_id := s_next_id st; s_ticks := s_ticks st; s_stop_msgs := s_stop_msgs st; s_pol_stop_msgs := s_pol_stop_msgs st; s_now := s_now st; s_mets := s_mets st; s_hist := s_hist st; s_start := s_start st; s_closed := s_closed st; s_pol_closed := s_pol_closed st; s_pc := s_pc st; s_wpc := s_wpc st; s_clients := s_clients st |}.
+Definition upd_done st x := {| s_store := s_store st; s_slfu := s_slfu st; s_tlfu := s_tlfu st; s_ring := s_ring st; s_pqueue := s_pqueue st; s_buf := s_buf st; s_clear_sigs := s_clear_sigs st; s_done := x; s_next_id := s_next_id st; s_ticks := s_ticks st; s_stop_msgs := s_stop_msgs st; s_pol_stop_msgs := s_pol_stop_msgs st; s_now := s_now st; s_mets := s_mets st; s_hist := s_hist st; s_start := s_start st; s_closed := s_closed st; s_pol_closed := s_pol_closed st; s_pc := s_pc st; s_wpc := s_wpc st; s_clients := s_clients st |}.
+Definition upd_next_id st x := {| s_store := s_store st; s_slfu := s_slfu st; s_tlfu := s_tlfu st; s_ring := s_ring st; s_pqueue := s_pqueue st; s_buf := s_buf st; s_clear_sigs := s_clear_sigs st; s_done := s_done st; s_next_id := x; s_ticks := s_ticks st; s_stop_msgs := s_stop_msgs st; s_pol_stop_msgs := s_pol_stop_msgs st; s_now := s_now st; s_mets := s_mets st; s_hist := s_hist st; s_start := s_start st; s_closed := s_closed st; s_pol_closed := s_pol_closed st; s_pc := s_pc st; s_wpc := s_wpc st; s_clients := s_clients st |}.
+Definition upd_ticks st x := {| s_store := s_store st; s_slfu := s_slfu st; s_tlfu := s_tlfu st; s_ring := s_ring st; s_pqueue := s_pqueue st; s_buf := s_buf st; s_clear_sigs := s_clear_sigs st; s_done := s_done st; s_next_id := s_next_id st; s_ticks := x; s_stop_msgs := s_stop_msgs st; s_pol_stop_msgs := s_pol_stop_msgs st; s_now := s_now st; s_mets := s_mets st; s_hist := s_hist st; s_start := s_start st; s_closed := s_closed st; s_pol_closed := s_pol_closed st; s_pc := s_pc st; s_wpc := s_wpc st; s_clients := s_clients st |}.
+Definition upd_stop_msgs st x := {| s_store := s_store st; s_slfu := s_slfu st; s_tlfu := s_tlfu st; s_ring := s_ring st; s_pqueue := s_pqueue st; s_buf := s_buf st; s_clear_sigs := s_clear_sigs st; s_done := s_done st; s_next_id := s_next_id st; s_ticks := s_ticks st; s_stop_msgs := x; s_pol_stop_msgs := s_pol_stop_msgs st; s_now := s_now st; s_mets := s_mets st; s_hist := s_hist st; s_start := s_start st; s_closed := s_closed st; s_pol_closed := s_pol_closed st; s_pc := s_pc st; s_wpc := s_wpc st; s_clients := s_clients st |}.
+Definition upd_pol_stop_msgs st x := {| s_store := s_store st; s_slfu := s_slfu st; s_tlfu := s_tlfu st; s_ring := s_ring st; s_pqueue := s_pqueue st; s_buf := s_buf st; s_clear_sigs := s_clear_sigs st; s_done := s_done st; s_next_id := s_next_id st; s_ticks := s_ticks st; s_stop_msgs := s_stop_msgs st; s_pol_stop_msgs := x; s_now := s_now st; s_mets := s_mets st; s_hist := s_hist st; s_start := s_start st; s_closed := s_closed st; s_pol_closed := s_pol_closed st; s_pc := s_pc st; s_wpc := s_wpc st; s_clients := s_clients st |}.
+Definition upd_now st x := {| s_store := s_store st; s_slfu := s_slfu st; s_tlfu := s_tlfu st; s_ring := s_ring st; s_pqueue := s_pqueue st; s_buf := s_buf st; s_clear_sigs := s_clear_sigs st; s_done := s_done st; s_next_id := s_next_id st; s_ticks := s_ticks st; s_stop_msgs := s_stop_msgs st; s_pol_stop_msgs := s_pol_stop_msgs st; s_now := x; s_mets := s_mets st; s_hist := s_hist st; s_start := s_start st; s_closed := s_closed st; s_pol_closed := s_pol_closed st; s_pc := s_pc st; s_wpc := s_wpc st; s_clients := s_clients st |}.
+Definition upd_mets st x := {| s_store := s_store st; s_slfu := s_slfu st; s_tlfu := s_tlfu st; s_ring := s_ring st; s_pqueue := s_pqueue st; s_buf := s_buf st; s_clear_sigs := s_clear_sigs st; s_done := s_done st; s_next_id := s_next_id st; s_ticks := s_ticks st; s_stop_msgs := s_stop_msgs st; s_pol_stop_msgs := s_pol_stop_msgs st; s_now := s_now st; s_mets := x; s_hist := s_hist st; s_start := s_start st; s_closed := s_closed st; s_pol_closed := s_pol_closed st; s_pc := s_pc st; s_wpc := s_wpc st; s_clients := s_clients st |}.
+Definition upd_hist st x := {| s_store := s_store st; s_slfu := s_slfu st; s_tlfu := s_tlfu st; s_ring := s_ring st; s_pqueue := s_pqueue st; s_buf := s_buf st; s_clear_sigs := s_clear_sigs st; s_done := s_done st; s_next_id := s_next_id st; s_ticks := s_ticks st; s_stop_msgs := s_stop_msgs st; s_pol_stop_msgs := s_pol_stop_msgs st; s_now := s_now st; s_mets := s_mets st; s_hist := x; s_start := s_start st; s_closed := s_closed st; s_pol_closed := s_pol_closed st; s_pc := s_pc st; s_wpc := s_wpc st; s_clients := s_clients st |}.
+Definition upd_start st x := {| s_store := s_store st; s_slfu := s_slfu st; s_tlfu := s_tlfu st; s_ring := s_ring st; s_pqueue := s_pqueue st; s_buf := s_buf st; s_clear_sigs := s_clear_sigs st; s_done := s_done st; s_next_id := s_next_id st; s_ticks := s_ticks st; s_stop_msgs := s_stop_msgs st; s_pol_stop_msgs := s_pol_stop_msgs st; s_now := s_now st; s_mets := s_mets st; s_hist := s_hist st; s_start := x; s_closed := s_closed st; s_pol_closed := s_pol_closed st; s_pc := s_pc st; s_wpc := s_wpc st; s_clients := s_clients st |}.
+Definition upd_closed st x := {| s_store := s_store st; s_slfu := s_slfu st; s_tlfu := s_tlfu st; s_ring := s_ring st; s_pqueue := s_pqueue st; s_buf := s_buf st; s_clear_sigs := s_clear_sigs st; s_done := s_done st; s_next_id := s_next_id st; s_ticks := s_ticks st; s_stop_msgs := s_stop_msgs st; s_pol_stop_msgs := s_pol_stop_msgs st; s_now := s_now st; s_mets := s_mets st; s_hist := s_hist st; s_start := s_start st; s_closed := x; s_pol_closed := s_pol_closed st; s_pc := s_pc st; s_wpc := s_wpc st; s_clients := s_clients st |}.
+Definition upd_pol_closed st x := {| s_store := s_store st; s_slfu := s_slfu st; s_tlfu := s_tlfu st; s_ring := s_ring st; s_pqueue := s_pqueue st; s_buf := s_buf st; s_clear_sigs := s_clear_sigs st; s_done := s_done st; s_next_id := s_next_id st; s_ticks := s_ticks st; s_stop_msgs := s_stop_msgs st; s_pol_stop_msgs := s_pol_stop_msgs st; s_now := s_now st; s_mets := s_mets st; s_hist := s_hist st; s_start := s_start st; s_closed := s_closed st; s_pol_closed := x; s_pc := s_pc st; s_wpc := s_wpc st; s_clients := s_clients st |}.
+Definition upd_pc st x := {| s_store := s_store st; s_slfu := s_slfu st; s_tlfu := s_tlfu st; s_ring := s_ring st; s_pqueue := s_pqueue st; s_buf := s_buf st; s_clear_sigs := s_clear_sigs st; s_done := s_done st; s_next_id := s_next_id st; s_ticks := s_ticks st; s_stop_msgs := s_stop_msgs st; s_pol_stop_msgs := s_pol_stop_msgs st; s_now := s_now st; s_mets := s_mets st; s_hist := s_hist st; s_start := s_start st; s_closed := s_closed st; s_pol_closed := s_pol_closed st; s_pc := x; s_wpc := s_wpc st; s_clients := s_clients st |}.
+Definition upd_wpc st x := {| s_store := s_store st; s_slfu := s_slfu st; s_tlfu := s_tlfu st; s_ring := s_ring st; s_pqueue := s_pqueue st; s_buf := s_buf st; s_clear_sigs := s_clear_sigs st; s_done := s_done st; s_next_id := s_next_id st; s_ticks := s_ticks st; s_stop_msgs := s_stop_msgs st; s_pol_stop_msgs := s_pol_stop_msgs st; s_now := s_now st; s_mets := s_mets st; s_hist := s_hist st; s_start := s_start st; s_closed := s_closed st; s_pol_closed := s_pol_closed st; s_pc := s_pc st; s_wpc := x; s_clients := s_clients st |}.
+Definition upd_clients st x := {| s_store := s_store st; s_slfu := s_slfu st; s_tlfu := s_tlfu st; s_ring := s_ring st; s_pqueue := s_pqueue st; s_buf := s_buf st; s_clear_sigs := s_clear_sigs st; s_done := s_done st; s_next_id := s_next_id st; s_ticks := s_ticks st; s_stop_msgs := s_stop_msgs st; s_pol_stop_msgs := s_pol_stop_msgs st; s_now := s_now st; s_mets := s_mets st; s_hist := s_hist st; s_start := s_start st; s_closed := s_closed st; s_pol_closed := s_pol_closed st; s_pc := s_pc st; s_wpc := s_wpc st; s_clients := x |}.
 
 Definition emit (c : cfg) (st : cstate) (evs : list mevent) : cstate :=
   if c_metrics c then upd_mets st (m_adds (s_mets st) evs) else st.
@@ -432,6 +434,39 @@ Definition proc_handle_item (c : cfg) (st : cstate) (h : hint) (it : item) : ste
       StepOk (upd_done st (id :: s_done st)) (mk_out PtProcLoop [] RNone)
   end.
 
+(* CacheProcessor::prepare_evict: a tracked key leaving through on_evict adds its age in whole
+   seconds to the life-expectancy histogram; Time::elapsed panics if the clock went backwards *)
+Definition prepare_evict (c : cfg) (st : cstate) (k : N) : option cstate :=
+  if c_metrics c then
+    match aget k (s_start st) with
+    | Some ts =>
+        if s_now st <? ts then None
+        else Some (upd_start (upd_hist st (hist_update (s_hist st) (Z.of_N ((s_now st - ts) / 1000000000))))
+                             (adel k (s_start st)))
+    | None => Some st
+    end
+  else Some st.
+
+Fixpoint prepare_evicts (c : cfg) (st : cstate) (cbs : list cbk) : option cstate :=
+  match cbs with
+  | [] => Some st
+  | CbEvict k _ _ _ :: r =>
+      match prepare_evict c st k with
+      | Some st1 => prepare_evicts c st1 r
+      | None => None
+      end
+  | _ :: r => prepare_evicts c st r
+  end.
+
+(* CacheProcessor::track_admission (after KeyAdd): remember when the key was admitted.  The pruning
+   branch (more than num_to_keep tracked keys: keep an arbitrary num_to_keep - 2 of them) is not
+   modelled: such a state is reported as outside the model *)
+Definition track_admission (c : cfg) (st : cstate) (k : N) : option cstate :=
+  if c_metrics c then
+    if Consts.NUM_TO_KEEP <? N.of_nat (length (s_start st)) then None
+    else Some (upd_start st (aset k (s_now st) (s_start st)))
+  else Some st.
+
 Definition next_victim (st : cstate) (vs : list pair) : cstate * point :=
   match vs with
   | [] => (upd_pc st PIdle, PtProcLoop)
@@ -441,9 +476,13 @@ Definition next_victim (st : cstate) (vs : list pair) : cstate * point :=
 (* after one key of the cleanup iteration: go on to the next key — the implementation names it (its
    hash-map iteration order), the model checks that it is one of the keys still to be visited — or,
    when the iteration is over, fire the collected on_evict callbacks *)
-Definition tick_next (st : cstate) (h : hint) (rest : amap N) (acc : list cbk) : step_result :=
+Definition tick_next (c : cfg) (st : cstate) (h : hint) (rest : amap N) (acc : list cbk) : step_result :=
   match rest with
-  | [] => StepOk (upd_pc st PIdle) (mk_out PtProcLoop acc RNone)
+  | [] =>
+      match prepare_evicts c st acc with
+      | Some st1 => StepOk (upd_pc st1 PIdle) (mk_out PtProcLoop acc RNone)
+      | None => StepPanic 3
+      end
   | _ =>
       match h_tick_key h with
       | None => StepIllegal 30
@@ -480,7 +519,7 @@ Definition proc_step (c : cfg) (st : cstate) (h : hint) : step_result :=
           let st1 := upd_store st0 {| st_map := st_map (s_store st0); st_em := em' |} in
           match due with
           | None => StepOk st1 (mk_out PtProcLoop [] RNone)
-          | Some m => tick_next st1 h m []
+          | Some m => tick_next c st1 h m []
           end
       | Some ArmStop =>
           (* sync: a closer is waiting in the rendezvous; async: a stop message is buffered *)
@@ -508,7 +547,10 @@ Definition proc_step (c : cfg) (st : cstate) (h : hint) : step_result :=
       if added then
         let sto := st_try_insert (c_validator c) (s_store st) k v cf exp in
         let st1 := emit c (upd_store st sto) [(MKeyAdd, 1)] in
-        StepOk (upd_pc st1 (PNewAfterStore victims)) (mk_out PtProcNewAfterStore [] RNone)
+        match track_admission c st1 k with
+        | Some st2 => StepOk (upd_pc st2 (PNewAfterStore victims)) (mk_out PtProcNewAfterStore [] RNone)
+        | None => StepIllegal 60
+        end
       else
         StepOk (upd_pc st (PNewAfterStore victims)) (mk_out PtProcNewAfterStore [CbReject k cf v cost] RNone)
   | PNewAfterStore victims =>
@@ -516,8 +558,10 @@ Definition proc_step (c : cfg) (st : cstate) (h : hint) : step_result :=
   | PNewVictim (vk, vcost) rest =>
       let '(sto, prev) := st_try_remove (s_store st) vk 0 in
       let cbs := match prev with Some e => [CbEvict vk (e_conflict e) (e_val e) vcost] | None => [] end in
-      let '(st1, p) := next_victim (upd_store st sto) rest in
-      StepOk st1 (mk_out p cbs RNone)
+      match prepare_evicts c (upd_store st sto) cbs with
+      | Some st0 => let '(st1, p) := next_victim st0 rest in StepOk st1 (mk_out p cbs RNone)
+      | None => StepPanic 4
+      end
   | PDelAfterPolicy k cf =>
       let '(sto, prev) := st_try_remove (s_store st) k cf in
       StepOk (upd_pc (upd_store st sto) PIdle)
@@ -528,7 +572,7 @@ Definition proc_step (c : cfg) (st : cstate) (h : hint) : step_result :=
   | PClearAfterPolicy sig =>
       StepOk (upd_pc (upd_store st st_empty) (PClearAfterStore sig)) (mk_out PtProcClearAfterStore [] RNone)
   | PClearAfterStore sig =>
-      let st1 := if c_metrics c then upd_hist_min (upd_mets st metrics_zero) 0%Z else st in
+      let st1 := if c_metrics c then upd_hist (upd_mets st metrics_zero) hist_clear else st in
       StepOk (upd_pc (upd_done st1 (sig :: s_done st1)) PIdle) (mk_out PtProcLoop [] RNone)
   | PTickKey k cf rest acc =>
       match st_expiration (s_store st) k with
@@ -538,8 +582,8 @@ Definition proc_step (c : cfg) (st : cstate) (h : hint) : step_result :=
             let '(s', mets) := pol_remove (s_slfu st) k in
             StepOk (upd_pc (emit c (upd_slfu st s') mets) (PTickAfterPolicy k cf cost rest acc))
                    (mk_out PtProcTickAfterPolicy [] RNone)
-          else tick_next st h rest acc
-      | None => tick_next st h rest acc
+          else tick_next c st h rest acc
+      | None => tick_next c st h rest acc
       end
   | PTickAfterPolicy k cf cost rest acc =>
       let '(sto, prev) := st_try_remove (s_store st) k cf in
@@ -547,7 +591,7 @@ Definition proc_step (c : cfg) (st : cstate) (h : hint) : step_result :=
                   | Some e => acc ++ [CbEvict k (e_conflict e) (e_val e) cost]
                   | None => acc
                   end in
-      tick_next (upd_store st sto) h rest acc'
+      tick_next c (upd_store st sto) h rest acc'
   end.
 
 (* ---- policy worker ---- *)
@@ -608,7 +652,7 @@ Definition cstep (c : cfg) (st : cstate) (l : label) : step_result :=
 Definition cinit (c : cfg) (max_cost : Z) (t : tinylfu) (now : N) : cstate :=
   {| s_store := st_empty; s_slfu := sl_new max_cost; s_tlfu := t; s_ring := []; s_pqueue := [];
      s_buf := []; s_clear_sigs := []; s_done := []; s_next_id := 0; s_ticks := 0; s_stop_msgs := 0;
-     s_pol_stop_msgs := 0; s_now := now; s_mets := metrics_zero; s_hist_min := I64MAX;
+     s_pol_stop_msgs := 0; s_now := now; s_mets := metrics_zero; s_hist := hist_new; s_start := [];
      s_closed := false; s_pol_closed := false; s_pc := PIdle; s_wpc := WIdle; s_clients := [] |}.
 
 (* run a label sequence; None when a label is not enabled / illegal / panics *)
